@@ -18,7 +18,7 @@ Local Open Scope N_scope.
 
 (* ------------------------------------------------------------------ labels and the flat view *)
 Record label := { l_name : str; l_kind : ekind; l_cfg : tri; l_mand : tri; l_dflt : list str; l_units : str;
-                  l_ty : option str; l_key : str; l_la : option (N * N); l_ns : option str;
+                  l_ty : option str; l_key : str; l_la : option (N * N * (bool * bool)); l_ns : option str;
                   l_hasdir : bool;      (* has a child map (possibly empty) *)
                   l_isrpc : bool }.     (* is an rpc or action: its only children are input and output *)
 
